@@ -6,11 +6,16 @@ package main
 // timestamps backwards (every comparison in that function is relative to time.Now()).
 
 import (
+	"bufio"
 	"fmt"
+	"io/ioutil"
 	"math"
 	"net/http"
 	"net/http/httptest"
 	"net/url"
+	"os"
+	"path/filepath"
+	"runtime"
 	"sort"
 	"strconv"
 	"strings"
@@ -18,6 +23,7 @@ import (
 	"testing"
 	"time"
 
+	"github.com/Cloud-Foundations/golib/pkg/log/testlogger"
 	"github.com/Cloud-Foundations/keymaster/lib/simplestorage"
 	"github.com/Cloud-Foundations/keymaster/lib/webapi/v0/proto"
 	"github.com/pquerna/otp/totp"
@@ -90,9 +96,15 @@ func vfC14Burst(state *RuntimeState, f []string, serial int) string {
 	rateMilli, _ := strconv.Atoi(f[4])
 	burst, _ := strconv.Atoi(f[5])
 	pauseMs, _ := strconv.Atoi(f[6])
+	state.passwordAttemptGlobalLimiter = rate.NewLimiter(rate.Limit(float64(rateMilli)/1000), burst)
+	return vfC14RunBurst(state, f[1], f[2], n, pauseMs, serial)
+}
+
+// n attempts through `entry` against a fresh counting backend, with whatever limiter the state has
+func vfC14RunBurst(state *RuntimeState, entry, mode string, n, pauseMs, serial int) string {
+	f := []string{"", entry, mode}
 	backend := &vfCountingAuth{seen: map[string]int{}}
 	state.passwordChecker = backend
-	state.passwordAttemptGlobalLimiter = rate.NewLimiter(rate.Limit(float64(rateMilli)/1000), burst)
 	codes := make([]int, n)
 	users := make([]string, n)
 	for i := range users {
@@ -151,6 +163,105 @@ func vfC14Burst(state *RuntimeState, f []string, serial int) string {
 		backend.calls, elapsed.Nanoseconds(), strings.Join(hs, ","))
 }
 
+// vfC14Cfg builds RuntimeStates the way the daemon does: a config file on disk, read by the real
+// loadVerifyConfigFile. The file is generated once by the repo's own -generateConfig code.
+type vfC14Cfg struct {
+	t    *testing.T
+	dir  string
+	file string
+	base string // generated config text without the two limiter settings
+}
+
+func (c *vfC14Cfg) init() error {
+	if c.base != "" {
+		return nil
+	}
+	dir, err := ioutil.TempDir("", "vfc14cfg")
+	if err != nil {
+		return err
+	}
+	c.dir = dir
+	c.file = filepath.Join(dir, "config.yml")
+	reader := bufio.NewReader(strings.NewReader(dir + "\n\n\n\n\n\n\n\n\n\n\n\n\n\n\n\n"))
+	if err := generateNewConfigInternal(reader, c.file, 2048, []byte("passphrase")); err != nil {
+		return err
+	}
+	if err := os.MkdirAll(filepath.Join(dir, "var/lib/keymaster"), 0750); err != nil {
+		return err
+	}
+	text, err := ioutil.ReadFile(c.file)
+	if err != nil {
+		return err
+	}
+	var keep []string
+	for _, l := range strings.Split(string(text), "\n") {
+		if strings.Contains(l, "password_attempt_global_burst_limit:") || strings.Contains(l, "password_attempt_global_rate_limit:") {
+			continue
+		}
+		keep = append(keep, l)
+	}
+	c.base = strings.Join(keep, "\n")
+	if !strings.HasPrefix(c.base, "base:\n") {
+		return fmt.Errorf("generated config does not start with base:")
+	}
+	return nil
+}
+
+// load writes the config with the given settings ("-" = not set in the file) and loads it
+func (c *vfC14Cfg) load(rateMilli, burst string) (*RuntimeState, error) {
+	if err := c.init(); err != nil {
+		return nil, err
+	}
+	extra := ""
+	if burst != "-" {
+		extra += "  password_attempt_global_burst_limit: " + burst + "\n"
+	}
+	if rateMilli != "-" {
+		r, err := strconv.Atoi(rateMilli)
+		if err != nil {
+			return nil, err
+		}
+		extra += "  password_attempt_global_rate_limit: " + strconv.FormatFloat(float64(r)/1000, 'f', -1, 64) + "\n"
+	}
+	text := "base:\n" + extra + strings.TrimPrefix(c.base, "base:\n")
+	if err := ioutil.WriteFile(c.file, []byte(text), 0640); err != nil {
+		return nil, err
+	}
+	state, err := loadVerifyConfigFile(c.file, testlogger.New(c.t))
+	if err != nil {
+		return nil, err
+	}
+	signer, err := getSignerFromPEMBytes([]byte(testSignerPrivateKey))
+	if err != nil {
+		return nil, err
+	}
+	state.Mutex.Lock()
+	state.Signer = signer
+	state.Mutex.Unlock()
+	return state, nil
+}
+
+// cfgburst <entry> <seq|conc> <n> <rateMilli|-> <burst|-> <pause_ms>: the limiter is whatever the real
+// config loader built from a file with these settings
+func (c *vfC14Cfg) burst(f []string, serial int) string {
+	n, e1 := strconv.Atoi(f[3])
+	pauseMs, e2 := strconv.Atoi(f[6])
+	if e1 != nil || e2 != nil {
+		return "bad-op"
+	}
+	state, err := c.load(f[4], f[5])
+	if err != nil {
+		return "err " + strings.Join(strings.Fields(err.Error()), "_")
+	}
+	lim := state.passwordAttemptGlobalLimiter
+	res := vfC14RunBurst(state, f[1], f[2], n, pauseMs, serial)
+	select {
+	case state.dbDone <- struct{}{}:
+	default:
+	}
+	return fmt.Sprintf("%s lim_burst=%d lim_rate_milli=%d", res, lim.Burst(), int64(math.Round(float64(lim.Limit())*1000)))
+}
+
 type vfC14User struct {
 	secret   string
 	disabled string
@@ -163,6 +274,7 @@ type vfC14Totp struct {
 	prefix   string
 	users    map[string]*vfC14User
 	prevReal time.Time
+	cleaners int
 }
 
 func (v *vfC14Totp) user(name string) *vfC14User {
@@ -261,6 +373,44 @@ func (v *vfC14Totp) snapshot(full string) totpRateLimitInfo {
 	v.state.totpLocalTateLimitMutex.Lock()
 	defer v.state.totpLocalTateLimitMutex.Unlock()
 	return v.state.totpLocalRateLimit[full]
+}
+
+// clean <gap_s>: the clock advances, then one pass of the daemon's periodic state cleanup runs.
+// performStateCleanup only exists as an endless loop (one pass, then sleep): it is started with a
+// period of years and the op returns once every such goroutine has reached its sleep.
+func (v *vfC14Totp) cleanup(f []string) string {
+	gap, err := strconv.ParseInt(f[1], 10, 64)
+	if err != nil || gap < 0 {
+		return "bad-op"
+	}
+	v.advance(gap)
+	v.state.totpLocalTateLimitMutex.Lock()
+	before := len(v.state.totpLocalRateLimit)
+	v.state.totpLocalTateLimitMutex.Unlock()
+	v.cleaners++
+	go v.state.performStateCleanup(100000000)
+	deadline := time.Now().Add(20 * time.Second)
+	buf := make([]byte, 1<<22)
+	for {
+		n := runtime.Stack(buf, true)
+		asleep := 0
+		for _, g := range strings.Split(string(buf[:n]), "\n\n") {
+			if strings.Contains(g, ".performStateCleanup(") && strings.Contains(g, "0x5f5e100") && strings.Contains(strings.SplitN(g, "\n", 2)[0], "[sleep") {
+				asleep++
+			}
+		}
+		if asleep >= v.cleaners {
+			break
+		}
+		if time.Now().After(deadline) {
+			return "err cleanup-pass-did-not-finish"
+		}
+		time.Sleep(200 * time.Microsecond)
+	}
+	v.state.totpLocalTateLimitMutex.Lock()
+	after := len(v.state.totpLocalRateLimit)
+	v.state.totpLocalTateLimitMutex.Unlock()
+	return fmt.Sprintf("clean entries_before=%d entries_after=%d", before, after)
 }
 
 func vfRoundSecs(d time.Duration) int64 { return int64(math.Floor(d.Seconds() + 0.5)) }
@@ -430,6 +580,12 @@ func TestVerifC14(t *testing.T) {
 	var limT int64
 	tv := &vfC14Totp{t: t, state: state, users: map[string]*vfC14User{}}
 	bigLimiter := state.passwordAttemptGlobalLimiter
+	cfg := &vfC14Cfg{t: t}
+	defer func() {
+		if cfg.dir != "" {
+			os.RemoveAll(cfg.dir)
+		}
+	}()
 	for i, line := range io.ops {
 		f := strings.Fields(line)
 		switch {
@@ -454,6 +610,10 @@ func TestVerifC14(t *testing.T) {
 		case len(f) == 7 && f[0] == "burst":
 			io.emit("%s", vfC14Burst(state, f, i))
 			state.passwordAttemptGlobalLimiter = bigLimiter
+		case len(f) == 7 && f[0] == "cfgburst":
+			io.emit("%s", cfg.burst(f, i))
+		case len(f) == 2 && f[0] == "clean":
+			io.emit("%s", tv.cleanup(f))
 		case len(f) == 2 && f[0] == "seq":
 			state.totpLocalTateLimitMutex.Lock()
 			state.totpLocalRateLimit = make(map[string]totpRateLimitInfo)
